@@ -1,10 +1,12 @@
 (* C11 — comparison is a lawful total preorder consistent with == and hash; borrowed orders like owned.
    Antisymmetry and reflexivity are proved for ALL terms (containers included, by induction over terms), and the
    borrowed order is proved to be the owned order; equal terms compare as Equal and hash alike, for all terms (the float
-   case: equal binary64 values have equal bits or are the two zeros); the full-strength transitivity statement is refuted on the
+   case: equal binary64 values have equal bits or are the two zeros); on the class of terms without floats and improper
+   lists (integers as the library holds them) the comparison IS a lexicographic order on a uniform key and therefore
+   transitive, Equal being substitutive; the full-strength transitivity statement is refuted on the
    faithful model (recorded finding C11-intransitive) — where it holds is covered by the exhaustive pair/triple law
    check of the correspondence run. *)
-From EDP Require Import Base.Bytes Base.F64 Term.Term Gen.Ranks Order.Cmp Order.CmpFacts Order.CmpLaws Order.HashStream Order.EqLaws.
+From EDP Require Import Base.Bytes Base.F64 Term.Term Gen.Ranks Order.Cmp Order.CmpFacts Order.CmpLaws Order.HashStream Order.EqLaws Order.NumLaws Order.Key.
 
 (* the two rank tables (term.rs term_type_order, borrowed.rs type_order) are the same table *)
 Theorem C11_rank_tables_agree : forall t, rank_owned t = rank_borrowed t.
@@ -91,5 +93,36 @@ Example C11_equal_example :
   let b := TTuple [TMap [(TFloat 9223372036854775808, p2)]; TList [TInt 5]] in
   teqb a b = true /\ wf a = true /\ a <> b.
 Proof. cbv zeta. repeat split; try (vm_compute; reflexivity). discriminate. Qed.
+
+(* ---- where the order is lawful ----
+   On terms without floats and without improper lists, with integers as the library holds them (i64, or a big integer with
+   minimal byte digits), comparison is the lexicographic order kcmp on the key of the term — numbers by value, a number
+   before a sequence, sequences element-wise with a proper prefix first — for terms nested arbitrarily *)
+Theorem C11_order_is_lexicographic_on_keys : forall a b, tcl a -> tcl b -> cmp_owned a b = kcmp (tkey a) (tkey b).
+Proof. exact cmp_is_kcmp. Qed.
+
+(* kcmp is a total order on all keys: Equal is substitutive and Less composes (with antisymmetry: every transitivity law) *)
+Theorem C11_key_order_lawful : forall a b c,
+  (kcmp a b = Eq -> kcmp b c = kcmp a c) /\ (kcmp a b = Lt -> kcmp b c <> Gt -> kcmp a c = Lt).
+Proof. exact kcmp_tr. Qed.
+
+(* hence transitivity of the term order on that class: a <= b, b <= c  =>  a <= c; Equal terms are interchangeable *)
+Theorem C11_transitive_off_the_recorded_classes : forall a b c, tcl a -> tcl b -> tcl c ->
+  cmp_owned a b <> Gt -> cmp_owned b c <> Gt -> cmp_owned a c <> Gt.
+Proof. exact cmp_transitive_on_class. Qed.
+
+Theorem C11_equal_is_substitutive : forall a b c, tcl a -> tcl b -> tcl c -> cmp_owned a b = Eq -> cmp_owned b c = cmp_owned a c.
+Proof. exact cmp_equal_substitutive. Qed.
+
+(* the class is inhabited by nested terms of every remaining kind, big integers on both sides of the i64 range included;
+   the witness of the refuted law above needs a float *)
+Example C11_class_example :
+  let p := {| pnode := [110]; pnum := 1; pserial := 2; pcreation := 3; ploc := None |} in
+  tcl (TTuple [TMap [(TAtom [97], TBig false [0; 0; 0; 0; 0; 0; 0; 0; 1]); (TInt (-5), TList [TBin [1]; TBitBin [128] 1; TStr [97]])];
+               TIntFun 1 (repeat 0 16) 2 1 [109] 3 4 p [TNil; TPid p]; TRef [110] 1 [1; 2] None; TExtFun [109] [102] 2; TPort [110] 1 2 None]).
+Proof.
+  cbn [tcl int_term]. repeat split; try lia; try exact I; try discriminate.
+  all: try (repeat constructor; lia). all: try (unfold minimal; cbn; discriminate).
+Qed.
 
 Check C11_antisym_across_ranks.
